@@ -518,13 +518,51 @@ def _decide(p, q, quats):
         sa_ = {x for x in all_atoms(a) if x.kind == "series"}
         sb_ = {x for x in all_atoms(b) if x.kind == "series"}
         if sa_ != sb_:
-            return UNKNOWN
+            return DIFFERENT if _one_series_swapped(d) else UNKNOWN
         return DIFFERENT
     if _free_trig_ring(a, b, quats) or (not quats and _radical_trig_ring(a, b)):
         return DIFFERENT
     if not quats and (_nonzero_radical_multiple(d)):
         return DIFFERENT
     return UNKNOWN
+
+
+def _one_series_swapped(d):
+    """d = c * (s1 - s2) with c a non-zero form free of series atoms and s1, s2 two table functions of one argument
+    family: the same entry at arguments r1 P and r2 P (rationals r1 != r2, P not constant), or two different entries
+    (different formula class, or the plain and the squared-argument version of one) at the same argument.  Every table
+    entry is a non-constant analytic function, so f(r1 u) = f(r2 u) for all u, or f(u) = f(sqrt u), would force f constant;
+    different formula classes are different functions.  Then s1 - s2 is not identically zero and neither is d."""
+    ser = [x for x in d.atoms() if x.kind == "series"]
+    if len(ser) != 2 or any(x.kind == "series" for y in d.atoms() if y.kind != "series" for x in all_atoms(Poly.atom(y))):
+        return False
+    s1, s2 = ser
+    c1, c2, c0 = Poly(), Poly(), Poly()
+    for m, c in d.t.items():
+        e1 = sum(e for x, e in m if x is s1)
+        e2 = sum(e for x, e in m if x is s2)
+        rest = tuple((x, e) for x, e in m if x is not s1 and x is not s2)
+        if (e1, e2) == (1, 0):
+            c1 = c1 + Poly({rest: c})
+        elif (e1, e2) == (0, 1):
+            c2 = c2 + Poly({rest: c})
+        elif (e1, e2) == (0, 0):
+            c0 = c0 + Poly({rest: c})
+        else:
+            return False
+    if c0.t or not c1.t or (c1 + c2).t:
+        return False
+    k1, q1, p1 = s1.key
+    k2, q2, p2 = s2.key
+    if not isinstance(p1, Poly) or not isinstance(p2, Poly) or p1.const_value() is not None or p2.const_value() is not None:
+        return False
+    if (k1, q1) == (k2, q2):
+        # same function: arguments must be different rational multiples of one polynomial
+        if len(p1.t) != len(p2.t) or set(p1.t) != set(p2.t):
+            return False
+        ratios = {p1.t[m] / p2.t[m] for m in p1.t}
+        return len(ratios) == 1 and next(iter(ratios)) != 1
+    return p1 == p2
 
 
 def _rational_in_symbols(p, depth=0):
